@@ -37,6 +37,13 @@ func Run(p *Plan, oracles func(*VM) []Oracle, trace bool) *Result {
 			if r := recover(); r != nil {
 				buf := make([]byte, 1<<14)
 				n := runtime.Stack(buf, false)
+				// ... unless the function that panicked is the library's: an oracle observing a live
+				// object (String, Serialize, RevocationIds, ...) is an ordinary caller
+				if fn := panickingFunc(string(buf[:n])); strings.Contains(fn, "biscuit-go/v2") {
+					fn = strings.TrimPrefix(fn, "github.com/biscuit-auth/biscuit-go/v2")
+					m.Violate(p.Property, "panic", "panic while observing a live object: "+fn+": "+normPanic(fmt.Sprint(r)), fmt.Sprintf("after op %d: %v\n%s", m.cur, r, buf[:n]))
+					return
+				}
 				res.Internal = fmt.Sprintf("harness panic: %v\n%s", r, buf[:n])
 			}
 		}()
@@ -105,6 +112,27 @@ func Run(p *Plan, oracles func(*VM) []Oracle, trace bool) *Result {
 		res.Trace = sim.Trace
 	}
 	return res
+}
+
+// panickingFunc returns the function that panicked according to a stack taken inside the deferred
+// function that recovered it: the first frame after the runtime's panic frames.
+func panickingFunc(stack string) string {
+	lines := strings.Split(stack, "\n")
+	for i := 0; i+2 < len(lines); i++ {
+		if strings.HasPrefix(lines[i], "panic(") {
+			for j := i + 2; j < len(lines); j += 2 {
+				f := lines[j]
+				if strings.HasPrefix(f, "runtime.") || strings.HasPrefix(f, "panic(") {
+					continue
+				}
+				if k := strings.LastIndex(f, "("); k > 0 {
+					f = f[:k]
+				}
+				return f
+			}
+		}
+	}
+	return ""
 }
 
 // abstractState is a coarse hash of the world: shapes of live objects.
